@@ -22,6 +22,9 @@ type condDesc struct {
 	If   *ssa.If
 	Edge int
 	Desc string // e.g. "Will != nil", "UserName != \"\"", "Retain", "QoS == 1"
+	// a condition that is not a branch of the code: entry k of a constant table selected by a field (If is nil)
+	SynField string
+	SynK     int64
 }
 
 func (it bItem) String() string {
@@ -101,7 +104,7 @@ func sameItem(a, b bItem) bool {
 				return false
 			}
 		}
-		return a.Kind == "loop" || (a.Cond != nil && b.Cond != nil && a.Cond.If == b.Cond.If)
+		return a.Kind == "loop" || (a.Cond != nil && b.Cond != nil && a.Cond.If != nil && a.Cond.If == b.Cond.If)
 	}
 	return a.Val == b.Val
 }
@@ -343,6 +346,13 @@ func (cc *chainCtx) decomposeOr(v ssa.Value) (int64, []orItem, bool) {
 			if _, isPhiY := stripConv(x.Y).(*ssa.Phi); isPhiY {
 				isCallY = true // a sub-chain computed separately (an inlined helper's result)
 			}
+			if ld, isLd := stripConv(x.Y).(*ssa.UnOp); isLd && ld.Op == token.MUL {
+				if ia, isIA := ld.X.(*ssa.IndexAddr); isIA {
+					if _, isG := ia.X.(*ssa.Global); isG {
+						isCallY = true // an entry of a constant table
+					}
+				}
+			}
 			if isCallY {
 				if _, isK := c.constByte(x.Y); !isK {
 					b1, its1, ok1 := cc.decomposeOr(x.X)
@@ -369,6 +379,32 @@ func (cc *chainCtx) decomposeOr(v ssa.Value) (int64, []orItem, bool) {
 		return cc.decomposeOr(x.X)
 	case *ssa.ChangeType:
 		return cc.decomposeOr(x.X)
+	case *ssa.UnOp:
+		// an entry of a constant table indexed by a field (`publishFlagQoS[msg.QoS]`): one alternative per entry
+		if x.Op == token.MUL {
+			if ia, ok := x.X.(*ssa.IndexAddr); ok {
+				if g, ok := ia.X.(*ssa.Global); ok {
+					if tbl, n, ok := c.constTable(g); ok {
+						fld := ""
+						if ld, isLd := stripConv(ia.Index).(*ssa.UnOp); isLd && ld.Op == token.MUL {
+							if fa, isFA := ld.X.(*ssa.FieldAddr); isFA {
+								_, f := fieldOf(fa)
+								if f != nil {
+									fld = f.Name()
+								}
+							}
+						}
+						if fld != "" && n > 0 && n <= 16 {
+							var alts []orItem
+							for k := 0; k < n; k++ {
+								alts = append(alts, orItem{Mask: tbl[int64(k)], Cond: &condDesc{Desc: fmt.Sprintf("%s == %d", fld, k), SynField: fld, SynK: int64(k)}})
+							}
+							return 0, []orItem{{Alt: alts}}, true
+						}
+					}
+				}
+			}
+		}
 	case *ssa.Phi:
 		if cc.inProg[v] {
 			cc.err = "cyclic phi " + x.Name()
